@@ -472,10 +472,10 @@ func (l *Lexer) Advance() bool {
 		l.val = Intern(str)
 		l.tok = base.UNKNOWN
 
-	case '\n', '(', ')', '`', ',', '{', '}', '[', ']', '^', ';':
+	case '\n', '(', ')', ',', '{', '}', '[', ']', '^', ';':
 		l.tok = char
 
-	case '"', '\'':
+	case '"', '\'', '`':
 		l.lexString(char)
 		l.tok = base.STRING
 
